@@ -585,6 +585,40 @@ func (g *gen) fillBlock(f reflect.Value, depth int) {
 				s = reflect.Append(s, e)
 			}
 		}
+		// repeated blocks often share all labels but the last (siblings below one label prefix)
+		if n > 1 && g.r.Chance(1, 2) {
+			elem := func(i int) reflect.Value {
+				e := s.Index(i)
+				if e.Kind() == reflect.Ptr {
+					e = e.Elem()
+				}
+				return e
+			}
+			var lab []int
+			okAll := true
+			for i := 0; i < s.Len(); i++ {
+				if e := elem(i); !e.IsValid() || e.Kind() != reflect.Struct {
+					okAll = false
+				}
+			}
+			for _, fi := range func() []fieldInfo {
+				if !okAll {
+					return nil
+				}
+				return fieldsOf(elem(0).Type())
+			}() {
+				if fi.kind == fkLabel {
+					lab = append(lab, fi.idx)
+				}
+			}
+			if len(lab) >= 2 {
+				for i := 1; i < s.Len(); i++ {
+					for _, idx := range lab[:len(lab)-1] {
+						elem(i).Field(idx).Set(elem(0).Field(idx))
+					}
+				}
+			}
+		}
 		// repeated blocks sometimes share their labels
 		if n > 1 && g.r.Chance(1, 3) && s.Index(0).Kind() == reflect.Struct {
 			first := s.Index(0)
